@@ -48,10 +48,27 @@ Fixpoint read_loop (budget : nat) (meth : bytes) (bufsize visible : nat) (n1xx :
 Definition read_call (meth : bytes) (bufsize visible : nat) (s : bytes) : call_result :=
   read_loop max_1xx_responses meth bufsize visible 0 s.
 
+(* The first head of a call is read with an empty read buffer: exactly [v1] bytes are visible.
+   Later heads (behind informational responses) may also see what was buffered: [v].
+   read_call2 m b v v = read_call m b v (H1LimitsProofs.read_call2_same). *)
+Definition read_call2 (meth : bytes) (bufsize v1 v : nat) (s : bytes) : call_result :=
+  match limited_head meth bufsize v1 s with
+  | inl e => CallErr 0 e
+  | inr (r, rest) =>
+      if is_1xx_nonterminal (r_code r) then read_loop 4 meth bufsize v 1 rest
+      else CallResp 0 r rest
+  end.
+
 (* the whole exchange as the caller sees it: final head, then the body drained without limit *)
 Inductive exchange :=
 | XErr                                   (* the call returns an error, no response *)
 | XResp (code : Z) (n1xx : nat) (b : body_result).
+
+Definition run_exchange2 (meth : bytes) (bufsize v1 v : nat) (s : bytes) : exchange :=
+  match read_call2 meth bufsize v1 v s with
+  | CallErr _ _ | CallTooMany1xx => XErr
+  | CallResp n r rest => XResp (r_code r) n (read_body bufsize r rest)
+  end.
 
 Definition run_exchange (meth : bytes) (bufsize visible : nat) (s : bytes) : exchange :=
   match read_call meth bufsize visible s with
